@@ -173,3 +173,31 @@ func VerifC13_ConcurrentAppends() {
 	}
 	verif.Assert("existing_member_gets_each_message_once", !withLog || (vHasOnce(m1.out, "ab") && len(m1.out) == 1))
 }
+
+// VerifC13_OwnsItsMemberList: the composite keeps its own member list: what the
+// caller later does with the slice it passed in does not add, drop or replace members.
+func VerifC13_OwnsItsMemberList() {
+	m1, m2, stranger := &vRecorder{}, &vRecorder{}, &vRecorder{}
+	members := make([]Loggers, 1, 4)
+	members[0] = m1
+	var combined IMultipleLoggers
+	var err error
+	if verif.Bool("withLoggerSource") {
+		combined, err = NewMultipleLoggers("src", members...)
+	} else {
+		combined, err = NewCombinedLoggers(members...)
+	}
+	verif.Assert("constructor", err == nil)
+	verif.Assert("append_ok", combined.Append(m2) == nil)
+	switch verif.Choice("callerThen", 3) {
+	case 0:
+		members = append(members, stranger) // reuses the spare capacity of the caller's slice
+	case 1:
+		members[0] = stranger
+	case 2:
+	}
+	combined.Log("ab")
+	verif.Assert("members_get_the_message", vHasOnce(m1.out, "ab") && vHasOnce(m2.out, "ab"))
+	verif.Assert("non_members_get_nothing", len(stranger.out) == 0)
+	_ = members
+}
